@@ -620,7 +620,7 @@ def orc_pool(case):
             got = pool_rdm(rdms, method=method, sigma_k=arg)
             Vk = _spec_V(n, S)[keep][:, keep] if method.endswith('_cov') else None
             want_k = _spec_pool(method, v[:, keep], Vk, 0.01)
-            tol = 1e-5 if method.endswith('_cov') else 1e-9
+            tol = 1e-4 if method.endswith('_cov') else 1e-9      # conjugate gradients with rtol 1e-5 in the real code
     want = np.full((1, P), np.nan)
     want[0, keep] = want_k
     g = got.get_vectors()
@@ -757,7 +757,8 @@ def orc_fit_regress(case):
         got = np.asarray(fit(model, data, method=method, ridge_weight=ridge, sigma_k=arg, **kw), dtype=float)
     if got.shape != want.shape:
         return f'theta has shape {got.shape}, expected {want.shape}'
-    if not close(got, want, 1e-5 if method.endswith('_cov') else 1e-7):
+    # whitened: the fitters solve V x = b by conjugate gradients with rtol 1e-5 (seen: 1e-5 on theta)
+    if not close(got, want, 1e-4 if method.endswith('_cov') else 1e-7):
         return (f'{fit.__name__}({method}, sigma_k={case.get("sigma", "none")}, ridge={ridge}, route={case["route"]}) with '
                 f'missing entries {np.where(~keep)[0].tolist()}: theta {_fmt(got)}, generalised least squares on the '
                 f'entry-deleted vectors gives {_fmt(want)}')
